@@ -262,48 +262,64 @@ pub fn partial_ctx<T: Corpus, const N: usize, const K: usize>(ctx: [Option<u8>; 
     partial_vs_full::<T, N, K>(&input, start);
 }
 
-/// C14 (bounded complement of the Verus proof, on a real derived lexer pair over the same source): after next, clone,
-/// morph to another token type and back, and spanned, the accessors agree with the source and every continuation
-/// yields what a fresh lexer positioned at the same place yields.
-pub fn history<const N: usize>(ctx: [Option<u8>; N]) {
+/// C14 (bounded complement of the Verus proof, on real derived lexers B1 / B2 over the same source).  Split into three
+/// short histories because every additional next() over a symbolic byte multiplies CBMC's work.
+/// (a) next, morph to another token type: position preserved, the morphed lexer continues like a fresh lexer there
+pub fn history_morph<const N: usize>(ctx: [Option<u8>; N]) {
     use crate::defs::basic::{B1, B2};
     use logos::{Lexer, Logos};
     let input = fill(ctx);
     let src: &[u8] = &input[..];
     let mut l1 = B1::lexer(src);
-    let r1 = l1.next();
+    let _r1 = l1.next();
     let sp1 = l1.span();
     check!(sp1.start <= sp1.end && sp1.end <= N, "C14: span inside the source after next");
     check!(l1.slice() == &src[sp1.start..sp1.end] && l1.remainder() == &src[sp1.end..], "C14: slice/remainder agree with span after next");
-    // spanned() yields the same (item, span)
-    let mut sp_it = B1::lexer(src).spanned();
-    match (sp_it.next(), r1) {
-        (None, None) => {}
-        (Some((a, s)), Some(b)) => { check!(a == b && s == sp1, "C14: spanned() yields the (item, span) pairs of manual iteration"); }
-        _ => { check!(false, "C14: spanned() and manual iteration disagree on termination"); }
-    }
-    // a clone continues like the original, without affecting it
-    let mut c = l1.clone();
-    // morph to another token type over the same source: position, partial mode and extras preserved
     let mut l2: Lexer<B2> = l1.morph();
-    check!(l2.span() == sp1 && l2.slice() == &src[sp1.start..sp1.end], "C14: morph preserves position");
+    check!(l2.span() == sp1 && l2.slice() == &src[sp1.start..sp1.end] && l2.remainder() == &src[sp1.end..], "C14: morph preserves position");
     let r2 = l2.next();
     let want2 = <B2 as Corpus>::run(src, sp1.end, false);
     let sp2 = l2.span();
     check!(sp2.start == want2.start && sp2.end == want2.end, "C14: the morphed lexer continues at the same position");
     check!((match r2 { None => 0, Some(Ok(_)) => 1, Some(Err(_)) => 2 }) == want2.res, "C14: the morphed lexer yields what a fresh lexer there yields");
-    // ... and back
-    let mut l3: Lexer<B1> = l2.morph();
+    let l3: Lexer<B1> = l2.morph();
     check!(l3.span() == sp2, "C14: morphing back preserves position");
-    let r3 = l3.next();
-    let want3 = <B1 as Corpus>::run(src, sp2.end, false);
-    check!(l3.span().start == want3.start && l3.span().end == want3.end, "C14: after the round trip the original token type continues at the same position");
-    check!((match r3 { None => 0, Some(Ok(_)) => 1, Some(Err(_)) => 2 }) == want3.res, "C14: after the round trip the items are those of a fresh lexer there");
+    cover!(r2.is_some(), "history: an item after a morph");
+}
+/// (b) next, clone: the clone continues with the items the original produces, and does not affect it
+pub fn history_clone<const N: usize>(ctx: [Option<u8>; N]) {
+    use crate::defs::basic::B1;
+    use logos::Logos;
+    let input = fill(ctx);
+    let src: &[u8] = &input[..];
+    let mut l1 = B1::lexer(src);
+    let _r1 = l1.next();
+    let sp1 = l1.span();
+    let mut c = l1.clone();
+    check!(c.span() == sp1, "C14: a clone has the original's span");
     let rc = c.next();
-    let wantc = <B1 as Corpus>::run(src, sp1.end, false);
-    check!(c.span().start == wantc.start && c.span().end == wantc.end, "C14: a clone continues with the items the original would have produced (span)");
-    check!((match rc { None => 0u8, Some(Ok(_)) => 1, Some(Err(_)) => 2 }) == wantc.res, "C14: a clone continues with the items the original would have produced (result)");
-    cover!(r1.is_some() && r2.is_some(), "history: two items across a morph");
+    check!(l1.span() == sp1, "C14: advancing a clone does not affect the original");
+    let ro = l1.next();
+    check!(rc == ro && c.span() == l1.span(), "C14: a clone continues with exactly the items the original produces");
+    cover!(rc.is_some(), "history: an item from a clone");
+}
+/// (c) spanned() yields the (item, span) pairs of manual iteration
+pub fn history_spanned<const N: usize>(ctx: [Option<u8>; N]) {
+    use crate::defs::basic::B1;
+    use logos::Logos;
+    let input = fill(ctx);
+    let src: &[u8] = &input[..];
+    let mut l1 = B1::lexer(src);
+    let r1 = l1.next();
+    let sp1 = l1.span();
+    let mut it = B1::lexer(src).spanned();
+    match (it.next(), r1) {
+        (None, None) => {}
+        (Some((a, s)), Some(b)) => { check!(a == b && s == sp1, "C14: spanned() yields the (item, span) pairs of manual iteration"); }
+        _ => { check!(false, "C14: spanned() and manual iteration disagree on termination"); }
+    }
+    check!(it.span() == sp1, "C14: the spanned iterator derefs to a lexer at the same position");
+    cover!(r1.is_some(), "history: an item from spanned()");
 }
 
 /// C07: a partial lexer over input[..k] either commits the item the one-shot lexer yields, or returns None with an empty span
